@@ -72,6 +72,8 @@ def maxAbs (l : List Rat) : Rat := l.foldl (fun m x => if absQ x > m then absQ x
 /-- rounding slack of an `n`-term dot product in this float type -/
 def dotSlack (F : Type) [FloatLike F] (c xs : List Rat) : Rat :=
   ((c.length + 2 : Nat) : Rat) * 2 * mkRat 1 (2 ^ mantBits F) * (Spec.sum (c.map absQ)) * maxAbs xs
+    -- below the normal range every operation errs by up to half the smallest subnormal, whatever the magnitudes
+    + ((2 * c.length + 2 : Nat) : Rat) * mkRat 1 (2 ^ (2 ^ (expBits F - 1) - 2 + mantBits F))
     + mkRat 1 (10 ^ 300)
 
 def closeTo (y e tol : Rat) : Bool := absQ (y - e) ≤ tol
@@ -98,7 +100,17 @@ def specHampel (N : Nat) (thr fac : F) (h : List (List F)) (y : List F) : List C
         -- a sample within that relative distance of the bound may legitimately fall on either side
         let slack : Rat := 1 + mkRat 8 (2 ^ mantBits F)
         let tiny : Rat := mkRat 1 (10 ^ 30)
+        -- the bounds below are about real numbers; near the ends of the float range the filter's own arithmetic
+        -- overflows (`spread·1.4826` = inf, `inf·0` = NaN) or loses all relative precision (subnormals): there only the
+        -- two-valued clause is asserted ("floats up to rounding" does not cover leaving the range)
+        let emax : Nat := 2 ^ (expBits F - 1)
+        let big : Rat := (2 : Rat) ^ (emax - 8)
+        let small : Rat := 1 / (2 : Rat) ^ (emax - 40)
+        let tooSmall (q : Rat) : Bool := q != 0 && absQ q < small
+        let inRange := maxAbs (x :: w) ≤ big && !tooSmall dev && !tooSmall (t * factor * (med - mn)) &&
+          !tooSmall (t * factor * maxDist) && !tooSmall (med - mn) && !tooSmall maxDist
         [clauseP "C18.two-valued" (isX || yq == med) "the sample or the previous window's median"] ++
+        (if !inRange then [] else
         -- exactly on the bound: decidable when the bound is computed without rounding whatever the association
         -- (then the filter's own threshold is at least this bound, rounding being monotone, and the rounded distance
         -- is at most it); the factor is the constant as the float type holds it
@@ -111,7 +123,7 @@ def specHampel (N : Nat) (thr fac : F) (h : List (List F)) (y : List F) : List C
         (if t ≥ 0 && (dev == 0 || onBound || dev * slack + tiny ≤ t * factor * (med - mn)) then
           [clauseP "C18.inlier-passes" isX "the sample (inlier)"] else []) ++
         (if t ≥ 0 && dev > t * factor * maxDist * slack + tiny then
-          [clauseP "C18.outlier-replaced" (yq == med) "the median (outlier)"] else [])
+          [clauseP "C18.outlier-replaced" (yq == med) "the median (outlier)"] else []))
       | some _, none, _ => [clauseP "C18.first-unchanged" isX "the first sample unchanged"]
       | _, _, _ => []
   | _, _, _ => []
